@@ -140,3 +140,72 @@ func c01EmptyGrid(c *core.Check) {
 	})
 	r.Cond(ok, key, p.Pos(fn.Pos()), "the grids are allocated only for a table with rows and columns", "a path reaches the allocation of the grids with gridWidth or gridHeight possibly zero: rows or columns that do not exist are indexed")
 }
+
+// c01NestedSelectorBound (R34): every `&` of a nested rule is replaced by the parent selector, so the selector handed
+// to the next level of PreprocessDeclarationsPrelude grows by a factor (the number of `&`) per nesting level: a
+// 230-byte style sheet costs hours and gigabytes.  The recursive call is reached only when a test of the selector it
+// passes on — a call, deciding a branch, of a function that receives that same value and compares a count with a
+// bound — came out false.
+func c01NestedSelectorBound(c *core.Check) {
+	p := c.Prog
+	r := c.Rule("R34", "the expansion of & is bounded: in css/validation.PreprocessDeclarationsPrelude the recursive call for a nested rule is unreachable when a size test of the selector it passes on (a call, deciding a branch, of a function that receives the same value and holds an ordered comparison) is true", 1)
+	fn := p.Fn("css/validation", "PreprocessDeclarationsPrelude")
+	if fn == nil {
+		r.Anchor("css/validation.PreprocessDeclarationsPrelude")
+		return
+	}
+	n := 0
+	core.Instrs(fn, func(in ssa.Instruction) {
+		rec, ok := in.(*ssa.Call)
+		if !ok || rec.Call.StaticCallee() != fn || len(rec.Call.Args) < 3 {
+			return
+		}
+		n++
+		key := fmt.Sprintf("css/validation.PreprocessDeclarationsPrelude | recursive call #%d", n)
+		passed := rec.Call.Args[2]
+		hasOrdered := func(g *ssa.Function) bool {
+			found := false
+			core.Instrs(g, func(in2 ssa.Instruction) {
+				if b, ok := in2.(*ssa.BinOp); ok {
+					switch b.Op {
+					case token.LSS, token.LEQ, token.GTR, token.GEQ:
+						found = true
+					}
+				}
+			})
+			return found
+		}
+		var guards []ssa.Value
+		for _, a := range core.CondAtoms(fn) {
+			call, ok := a.(*ssa.Call)
+			if !ok || call.Call.StaticCallee() == nil || call.Call.StaticCallee() == fn {
+				continue
+			}
+			takes := false
+			for _, arg := range call.Call.Args {
+				if arg == passed {
+					takes = true
+				}
+			}
+			if takes && hasOrdered(call.Call.StaticCallee()) {
+				guards = append(guards, a)
+			}
+		}
+		if len(guards) == 0 {
+			r.Fail(key, p.Pos(rec.Pos()), "no size test of the selector passed to the next level decides a branch: the selector grows by the number of & per nesting level without limit")
+			return
+		}
+		ok2, _ := core.GuardedBy(fn, rec.Block(), guards, func(m map[ssa.Value]bool) bool {
+			for _, v := range m {
+				if v {
+					return false
+				}
+			}
+			return true
+		})
+		r.Cond(ok2, key, p.Pos(rec.Pos()), "unreachable when the size test of the selector is true", "the recursive call is reached although the size test of the selector came out true")
+	})
+	if n == 0 {
+		r.Skip("css/validation.PreprocessDeclarationsPrelude | recursive call", p.Pos(fn.Pos()), "the function does not call itself: nested rules are not expanded here")
+	}
+}
